@@ -150,11 +150,12 @@ def stack_slot(tid, cp, idx):
 
 class State(object):
     """one merged control state of a thread: position, guard and its own local environment"""
-    __slots__ = ('cp', 'blk', 'phase', 'g', 'env', 'owned')
+    __slots__ = ('cp', 'blk', 'phase', 'g', 'env', 'owned', 'lc')
     def __init__(s, cp, blk, phase, g, env):
-        s.cp = cp; s.blk = blk; s.phase = phase; s.g = g; s.env = env; s.owned = set(env)
+        s.cp = cp; s.blk = blk; s.phase = phase; s.g = g; s.env = env; s.owned = set(env); s.lc = None
     def clone(s, g):
         n = State(s.cp, s.blk, s.phase, g, dict(s.env)); n.owned = set(); s.owned = set()
+        if s.lc: n.lc = dict(s.lc)
         return n
     def get(s, cp, idx):
         f = s.env.get(cp)
@@ -200,6 +201,11 @@ def merge_states(a, b):
                     nf = dict(fa); a.env[cp] = nf; a.owned.add(cp)
             nf[idx] = merge(gb, vb, va)
     a.g = Or(a.g, gfull)
+    if b.lc:
+        if not a.lc: a.lc = dict(b.lc)
+        else:
+            for k, v in b.lc.items():
+                if a.lc.get(k, 0) < v: a.lc[k] = v
     return a
 
 class Thread(object):
@@ -538,7 +544,7 @@ class Machine(object):
         if st.g is FALSE: return
         if check and s.pruner is not None and phase != 'E' and not s.pruner.feasible(st.g):
             s.stats['pruned'] = s.stats.get('pruned', 0) + 1; return
-        st.phase = phase
+        st.phase = phase; st.lc = None
         k = st.key
         old = s.newstates.get(k)
         if old is None: s.newstates[k] = st
@@ -614,7 +620,11 @@ class Machine(object):
             _, _, k = heapq.heappop(s.heap)
             st = s.wl.pop(k, None)
             if st is None or st.g is FALSE: continue
-            n = s.visits.get(k, 0) + 1; s.visits[k] = n
+            s.visits[k] = s.visits.get(k, 0) + 1
+            if st.lc is None: st.lc = {}
+            n = st.lc.get(k, 0) + 1; st.lc[k] = n
+            if n > 2 and s.pruner is not None and not s.pruner.feasible(st.g):
+                s.stats['pruned'] = s.stats.get('pruned', 0) + 1; continue
             if n > s.LOOPCAP:
                 s.oblige('unwind', 'loop bound %d exceeded at %s %s' % (s.LOOPCAP, s.fn_of(st.cp).name, st.blk), st.g); continue
             s.exec_block(th, st)
@@ -807,6 +817,13 @@ def _replace(s, v, path, nv):
     if isinstance(v, Mix): return Mix([(g, _replace(s, a, path, nv)) for g, a in v.alts])
     if not isinstance(v, En): v = En(None, ZERO, {})
     nvv = dict(v.vars); nvv[x] = _replace(s, v.vars.get(x), path[1:], nv); return En(v.ty, v.disc, nvv)
+
+def _why(e, d=0):
+    if not isinstance(e, E) or e.op == 'c': return
+    if e.op != 'ite': print(' ' * d, 'LEAF', e.op, show(e, 3)[:160]); return
+    print(' ' * d, 'ite cs=', None if not e._cs else sorted(e._cs), 'raw', e._cs is False)
+    if consts(e) is None:
+        _why(e.args[1], d + 2); _why(e.args[2], d + 2)
 
 def shallow_restrict(v, g):
     if g is TRUE or v is None: return v
